@@ -35,6 +35,7 @@ LEVEL_TEXT = (
     "a fresh computation for that sample's own reads; the array-map agrees with a dict model on random histories; every "
     "entry left in caller-supplied caches is the right likelihood. Histories not generated are not covered."
 )
+LEVEL_TEXT += ' Session 3: the cold-chain-only trace (return_heated_trace=False, the path fit() uses) must equal the T=1 slice of the all-temperatures trace, likelihoods included.'
 LEVEL_NOTE = "Trusts the independent likelihood oracle; M3 runs Python semantics of the same source (numba semantics are covered by the trace and cache-content monitors on the compiled code)."
 RULE = (
     "case = one sampler run (instance, seed, cache setting), one arraymap history or one pedigree/call cache inspection; "
